@@ -57,9 +57,9 @@ class EmbNet(nn.Module):
 
 
 class BagNet(nn.Module):
-    def __init__(self, V, d, o, mode):
+    def __init__(self, V, d, o, mode, pad=None):
         super().__init__()
-        self.bag = nn.EmbeddingBag(V, d, mode=mode)
+        self.bag = nn.EmbeddingBag(V, d, mode=mode, padding_idx=pad)
         self.out = nn.Linear(d, o)
 
     def forward(self, x):           # x : [B, n] indices, one bag per row
@@ -121,7 +121,7 @@ def build(c, g):
         m = EmbNet(a['V'], a['d'], a['pad'], a['o'])
         shape = None
     elif t == 'bag':
-        m = BagNet(a['V'], a['d'], a['o'], a['mode'])
+        m = BagNet(a['V'], a['d'], a['o'], a['mode'], a.get('pad'))
         shape = None
     elif t == 'tied_emb':
         m = TiedEmb(a['V'], a['d'])
@@ -152,6 +152,8 @@ def build(c, g):
                 x[:, -1] = a['pad']          # the padding index really occurs
             if t == 'bag' and a.get('dup') and B > 0 and a['n'] > 1:
                 x[:, 1] = x[:, 0]            # a repeated index inside one bag
+            if t == 'bag' and a.get('pad') is not None and B > 0:
+                x[:, -1] = a['pad']          # the padding index really occurs (a bag of one entry is then empty)
             return (x,)
         x = torch.randn(shape(B), generator=g) * c.get('scale', 1.0)
         if t == 'rnn' and a['packed']:
